@@ -115,6 +115,7 @@ static void gen_unwrap_common(fc_ctx* c, int share)
 	c->a[0] = fc_out(c, m);
 	c->a[1] = fc_out(c, sizeof(size_t));
 	c->plain = k, c->plain_len = m, c->dest = c->a[0], c->dest_len = m;
+	c->n[6] = (size_t)share;
 	c->variant = (int)m;
 }
 static void gen_PrivkeyUnwrap(fc_ctx* c) { gen_unwrap_common(c, 0); }
@@ -148,6 +149,32 @@ static int bad_unwrap(fc_ctx* c, int j, err_t* exp)
 	case 4: /* outer tag */
 		((octet*)c->a[2])[0] ^= 0x10;
 		return 1;
+	case 5: /* a well-formed container of the other kind under the same password: the
+	           integrity check passes, the decrypted body is not what this function unwraps */
+	{
+		static const size_t kl[3] = { 32, 48, 64 };
+		static const size_t sl[3] = { 17, 25, 33 };
+		int other_share = !c->n[6];
+		size_t m = other_share ? FC_PICK(c, sl) : FC_PICK(c, kl), n = 0;
+		octet* k = fc_sec(c, m);
+		octet* salt = fc_pub(c, 8);
+		if (other_share)
+		{
+			k[0] = (octet)(1 + k[0] % 16);
+			bpkiShareWrap(0, &n, 0, m, 0, 0, 0, 10000);
+			c->a[2] = fc_raw(c, n), c->n[2] = n;
+			bpkiShareWrap(c->a[2], &n, k, m, c->a[3], c->n[3], salt, 10000);
+		}
+		else
+		{
+			bpkiPrivkeyWrap(0, &n, 0, m, 0, 0, 0, 10000);
+			c->a[2] = fc_raw(c, n), c->n[2] = n;
+			bpkiPrivkeyWrap(c->a[2], &n, k, m, c->a[3], c->n[3], salt, 10000);
+		}
+		fc_mark_pub(c, c->a[2], n);
+		c->plain = k, c->plain_len = m;
+		return 1;
+	}
 	}
 	return 0;
 }
